@@ -36,7 +36,7 @@
       decided as it would in exact arithmetic. *)
 From Coq Require Import List ZArith NArith QArith Bool String Lia.
 From RG Require Import Base.Str Base.Num Model.Recipe Model.Units Model.Lint Spec.LintSpec
-  Proofs.RecipeScale Proofs.LintProofs.
+  Spec.Valid Proofs.RecipeScale Proofs.LintProofs Proofs.LintTotal.
 Import ListNotations.
 
 (** ** Small recipes used in the examples *)
@@ -104,6 +104,33 @@ Proof.
   - apply Forall_not_tiny_b. vm_compute. reflexivity.
   - apply Forall_not_tiny_b. vm_compute. reflexivity.
   - vm_compute. reflexivity.
+Qed.
+
+(** The unit system answers every conversion request with a factor or with
+    KeyError (the one exception lint.py catches): nothing else can escape from
+    it.  Computed over the whole generated unit table; names outside the table
+    by a structural argument. *)
+Theorem C20_conversion_total : forall a b,
+  (exists f, convert_between a b = Ok f) \/ convert_between a b = Err KeyError.
+Proof. exact convert_between_total. Qed.
+
+(** On a strictly valid recipe (Spec/Valid.v: what the compiler produces and
+    scaling preserves, C08) [output_names[output_index]] cannot fail. *)
+Theorem C20_no_index_error : forall bs, strictly_valid bs -> lint_check bs <> LErr LIndexError.
+Proof. exact no_index_error. Qed.
+
+(** Altogether: on such a recipe [lint.check] returns its lints; the only
+    exceptions the model leaves possible are numeric range errors
+    (OverflowError, for numbers far outside what the parser accepts) and
+    renderings outside the number formatter's model (negative numbers). *)
+Theorem C20_terminates : forall bs,
+  strictly_valid bs -> Forall not_tiny (blocks_numbers bs) ->
+  (exists l, lint_check bs = LOk l) \/ lint_check bs = LErr LOverflow \/ lint_check bs = LErr LOutOfModel.
+Proof. exact only_range_errors. Qed.
+
+Example C20_terminates_ex : strictly_valid eggs_recipe /\ strictly_valid spam55_recipe.
+Proof.
+  split; apply Proofs.RecipeValid.strictly_valid_iff_rec; unfold strictly_valid_rec; simpl; repeat split; auto.
 Qed.
 
 (** ** 2. Unused ingredients *)
